@@ -161,6 +161,12 @@ def _stream_worker(a):
                     dl.append("%d %s" % (k + 1, cmd))
             dl.append("-1 ? stats")
             data = ("\n".join(dl) + "\n").encode("latin-1")
+        if seed % 4 == 2:
+            # a stream whose length is a whole number of 4096-byte reads (the last read fills its buffer exactly, then end of input)
+            pad = (-len(data) - 8) % 4096
+            data += b"-1 zzz " + b"p" * pad + b"\n"
+            if len(data) % 4096:
+                data += b"\n" * (4096 - len(data) % 4096)
         ref_out, ref_r = daemon.run_batch(b, conf, data, leaks=True, timeout=WD)
         ref_out = comparable(ref_out)
         results.append(("chunk-ref", data, ref_r, None))
